@@ -215,6 +215,7 @@ NextImpl ==
     \/ \E t \in Tx : SeeUnmined(t) /\ ImplSeeUnmined(t)
     \/ \E t \in Tx : Confirm(t) /\ ImplConfirm(t, tip)
     \/ \E t \in Tx : Abandon(t) /\ ImplAbandon(t)
+    \/ \E t \in Tx : AbandonAgain(t) /\ ImplAbandon(t)
     \/ NewBlock /\ UNCHANGED ivars
     \/ \E h \in 1..(MaxTip+1) : Rollback(h) /\ ImplRollback(h)
     \/ LeaseNext /\ UNCHANGED ivars
